@@ -476,18 +476,38 @@ func (fr *frame) index(in *ssa.Index) Value {
 	idx := e.asInt(fr.get(in.Index))
 	switch v := x.(type) {
 	case Array:
+		if !idx.IsConst() && len(v) > 0 {
+			// array of scalars read at a symbolic index: if-then-else chain instead of a fork per element
+			allTerms := true
+			for _, el := range v {
+				if _, ok := el.(*Term); !ok {
+					allTerms = false
+					break
+				}
+			}
+			if allTerms {
+				st := e.st
+				if !e.branch(st.Cmp(OpULt, idx, st.Const(idx.W, uint64(len(v))))) {
+					panic(&goPanic{runtime: fmt.Sprintf("index out of range [symbolic] with length %d", len(v))})
+				}
+				r := v[len(v)-1].(*Term)
+				for i := len(v) - 2; i >= 0; i-- {
+					r = st.Ite(st.Eq(idx, st.Const(idx.W, uint64(i))), v[i].(*Term), r)
+				}
+				return r
+			}
+		}
 		i := e.indexChoice(idx, len(v), isSigned(in.Index.Type()))
 		return copyVal(v[i])
 	case Str:
-		if !v.IsSym() || idx.IsConst() {
-			i := e.indexChoice(idx, v.Len(), isSigned(in.Index.Type()))
-			if v.IsSym() {
-				return v.Sym[i]
-			}
-			return e.st.Const(8, uint64(v.S[i]))
+		if !idx.IsConst() {
+			return e.strAtSym(v, idx)
 		}
 		i := e.indexChoice(idx, v.Len(), isSigned(in.Index.Type()))
-		return v.Sym[i]
+		if v.IsSym() {
+			return v.Sym[i]
+		}
+		return e.st.Const(8, uint64(v.S[i]))
 	}
 	panic(unsupported(fmt.Sprintf("Index on %T", x)))
 }
@@ -624,6 +644,9 @@ func (fr *frame) lookup(in *ssa.Lookup) Value {
 		return res
 	case Str:
 		idx := e.asInt(fr.get(in.Index))
+		if !idx.IsConst() {
+			return e.strAtSym(v, idx)
+		}
 		i := e.indexChoice(idx, v.Len(), isSigned(in.Index.Type()))
 		if v.IsSym() {
 			return v.Sym[i]
@@ -918,4 +941,21 @@ func (e *Engine) chanRecv(ch *Chan, t types.Type, commaOk bool) (Value, bool) {
 			panic(unsupported("blocking channel receive"))
 		}
 	}
+}
+
+// strAtSym reads s[idx] for a symbolic index without forking per position:
+// bounds check (panic path), then an if-then-else chain over the bytes.
+func (e *Engine) strAtSym(s Str, idx *Term) *Term {
+	n := s.Len()
+	st := e.st
+	inRange := st.Cmp(OpULt, idx, st.Const(idx.W, uint64(n)))
+	if !e.branch(inRange) {
+		panic(&goPanic{runtime: fmt.Sprintf("index out of range [symbolic] with length %d", n)})
+	}
+	bs := e.strBytes(s)
+	r := bs[n-1]
+	for i := n - 2; i >= 0; i-- {
+		r = st.Ite(st.Eq(idx, st.Const(idx.W, uint64(i))), bs[i], r)
+	}
+	return r
 }
